@@ -71,7 +71,8 @@ Blank == [e |-> "-", k |-> "-", nm |-> "", op |-> "-", p |-> 0, ok |-> TRUE, v |
 Verdict(cs) ==
     LET r == PlanOf(cs)
         plan == r.ev
-    IN IF IsOOM(r) THEN [id |-> cs.id, st |-> "skipped", at |-> 0, why |-> "out-of-model", rd |-> "", exp |-> Blank, got |-> Blank]
+    IN IF "skip" \in DOMAIN cs THEN [id |-> cs.id, st |-> "skipped", at |-> 0, why |-> "oversize", rd |-> "", exp |-> Blank, got |-> Blank]
+       ELSE IF IsOOM(r) THEN [id |-> cs.id, st |-> "skipped", at |-> 0, why |-> "out-of-model", rd |-> "", exp |-> Blank, got |-> Blank]
        ELSE LET d == FirstDiff(plan, cs.events, 1)
                 rd == ResultDiff(cs, r)
                 mexp == [Blank EXCEPT !.ok = r.ok, !.err = r.err, !.p = Tell(r.s), !.v = ModelRes(cs, r).v]
